@@ -13,6 +13,7 @@ EXPLANATION = (
     "kernel uses the same tail template on scipy.stats.nbinom.cdf(k, n, p) with, as polynomial identities, "
     "p == mean/var and n == mean^2/(var - mean); D3 the catalog test calls get_quantiles(sizes of the synthetic "
     "catalogs, observed size) where sizes are appended once per catalog of a complete pass, and stores "
+    "D1.double no narrowing of the forecast total / observed count. "
     "(delta_1, delta_2) in that order. NOT decided: monotonicity / range of scipy's cdf, float evaluation.")
 CLAUSES = {'D1': 'Poisson tails, roles, order', 'D2': 'NBD tails and re-parameterisation identity', 'D3': 'empirical tails'}
 TRUSTED = ['CPython ast', 'scipy.stats.poisson.cdf(k, mu) and nbinom.cdf(k, n, p) signatures', 'C09 for get_quantiles']
